@@ -130,6 +130,44 @@ Theorem rewrite_adjoint_mv :
 Proof. exact adjoint_mv. Qed.
 Print Assumptions rewrite_adjoint_mv.
 
+(* The first clause of C14 ("applies einsum(subscripts, blocks, leaf) to each leaf: one shared block
+   array, or one block array per leaf"), for every carrier and ALL strings, block arrays and pytrees
+   of leaves: mv is defined iff every per-leaf einsum is (and the two trees have the same number of
+   leaves), and then the n-th output leaf IS einsum(l,r->o)(B, n-th leaf) resp.
+   einsum(l,r->o)(n-th block array, n-th leaf); a pytree without leaves is mapped to itself.
+   The array library of blocks and leaves (jax.Array / numpy.ndarray) is not part of the model:
+   the harness runs every layout with both and compares with this one model. *)
+Theorem mv_applies_einsum_to_each_leaf_shared :
+  forall (K : Type) (k0 : K) (kadd kmul : K -> K -> K) l r o (B : arr K) xs ys,
+  mv K k0 kadd kmul l r o (Shared B) xs = Some ys <->
+  List.length ys = List.length xs /\
+  forall n x, nth_error xs n = Some x ->
+              exists y, nth_error ys n = Some y /\ einsum K k0 kadd kmul l r o B x = Some y.
+Proof. exact mv_shared_each_leaf. Qed.
+Print Assumptions mv_applies_einsum_to_each_leaf_shared.
+
+Theorem mv_applies_einsum_to_each_leaf_perleaf :
+  forall (K : Type) (k0 : K) (kadd kmul : K -> K -> K) l r o (Bs xs ys : list (arr K)),
+  mv K k0 kadd kmul l r o (PerLeaf Bs) xs = Some ys <->
+  List.length Bs = List.length xs /\ List.length ys = List.length xs /\
+  forall n B x, nth_error Bs n = Some B -> nth_error xs n = Some x ->
+                exists y, nth_error ys n = Some y /\ einsum K k0 kadd kmul l r o B x = Some y.
+Proof. exact mv_perleaf_each_leaf. Qed.
+Print Assumptions mv_applies_einsum_to_each_leaf_perleaf.
+
+Theorem mv_pytree_without_leaves :
+  forall (K : Type) (k0 : K) (kadd kmul : K -> K -> K) l r o (B : arr K),
+  mv K k0 kadd kmul l r o (Shared B) [] = Some [] /\ mv K k0 kadd kmul l r o (PerLeaf []) [] = Some [].
+Proof. exact mv_no_leaves. Qed.
+
+(* non-vacuity: 'ij,j->i' with one shared 2x3 block array on two leaves *)
+Example mv_shared_two_leaves :
+  option_map (map (fun a => (shape a, data a)))
+    (mvZ ["i"; "j"]%char ["j"]%char ["i"]%char (Shared (mkZ [2; 3] [1; 2; 3; 4; 5; 6]%Z))
+         [mkZ [3] [1; 0; 0]%Z; mkZ [3] [1; 1; 1]%Z])
+  = Some [([2], [1; 4]%Z); ([2], [6; 15]%Z)].
+Proof. vm_compute. reflexivity. Qed.
+
 (* the general form behind (d): <einsum(l,r->o)(B,x), y> is the sum over ALL assignments of the
    letters of B[l] x[r] y[o], and that triple sum is invariant under renaming the letters along
    any involution p with p(o) = r *)
